@@ -1,5 +1,6 @@
 import Bip39V.Model.Lang
 import Bip39V.Gen.Consts
+import Bip39V.Gen.Gates
 /-! Model of entropy.go (`fromEntropy`) and `NewMnemonicByEntropy`.  `D` is the SHA-256 digest
 function; every theorem is stated for an arbitrary `D`. -/
 namespace Bip39V.Model
@@ -37,10 +38,9 @@ def fromEntropy (D : Bytes → Bytes) (e : Bytes) (wordLen : Int) (ℓ : Int) : 
           | none => .panic .indexOutOfRange
           | some ws => .ok (joinWith (if ℓ = Gen.vJapanese then Gen.fromEntropy.sepJa else Gen.fromEntropy.sep) ws)
 
-/-- the size gate of `NewMnemonicByEntropy` on the Go `int` length (`%` truncates) -/
-def entGate (n : Int) : Bool :=
-  n < Gen.NewMnemonicByEntropy.entMin || n > Gen.NewMnemonicByEntropy.entMax
-    || n.tmod Gen.NewMnemonicByEntropy.entMod != Gen.NewMnemonicByEntropy.entRem
+/-- the size gate of `NewMnemonicByEntropy` on the Go `int` length: the condition of the source,
+translated by the extractor (`Gen/Gates.lean`) -/
+def entGate (n : Int) : Bool := Gen.Gates.entGate n
 
 def entWordLen (n : Int) : Int := n.tdiv Gen.NewMnemonicByEntropy.wlDiv * Gen.NewMnemonicByEntropy.wlMul
 
